@@ -1,8 +1,8 @@
 #!/bin/bash
 # usage: run_harmless.sh <Cxx> [extra props...] — applies each behaviour-preserving edit in /tmp/harmless/<Cxx>/H* to a scratch copy and runs the checks; any VIOLATION is a false alarm
 id=$1; shift
-for d in /tmp/harmless/$id/H*/; do
-  h=$(basename $d)
+for d in /verif/harmless/$id-H*/; do
+  h=$(basename $d | sed "s/.*-//")
   [ -f $d/patch.diff ] || continue
   r=$(/verif/tools/try_mutant.sh $d/patch.diff $id "$@" 2>&1)
   if echo "$r" | grep -a -q "^VIOLATION\|TOOL-ERROR\|DOES NOT APPLY"; then
